@@ -143,6 +143,11 @@ def lockrankLine (line : String) : String :=
     | some true => id ++ " OK events=" ++ toString es.length ++ " locks=" ++ toString rk.length
     | some false => id ++ " FAIL the trace is not rank-consistent with its certificate"
     | none => id ++ " PARSE"
+  | [hd, _] | [hd] =>
+    -- an execution without a single lock event (the line's trailing separators are lost to trimming): the empty
+    -- trace is rank-consistent with any certificate (`checkTrace rank [] = true`)
+    let id := ((hd.splitOn " ").filter (· ≠ "")).getD 1 "?"
+    if (hd.splitOn " ").getD 0 "" == "LOCKCERT" then id ++ " OK events=0 locks=0" else "? PARSE"
   | _ => "? PARSE"
 
 partial def loopCosim (model : String) (h out : IO.FS.Stream) : IO Unit := do
